@@ -7,6 +7,7 @@ CONSTANTS
   FixEnqueue = TRUE
   FixBatch = TRUE
   LossySend = TRUE
+  HasKeepalive = TRUE
 INVARIANTS NotW4
 
 CHECK_DEADLOCK FALSE
